@@ -44,6 +44,10 @@ CHECKS = {
             "property-based testing: differential against the inner script after the deadline"),
     "C20": ("comb", "§5 C20", "never-completing children at every position; oracle: at every Pending answer of a concurrent combinator each child it owns has been polled at least once; at quiescence all other children ran to completion / results were delivered",
             "property-based testing: never-completing children vs. all-started and sibling-progress invariants"),
+    "C11": ("group", "§5 C11", "stateful operation histories (insert / remove of any key ever returned / reserve / extend / poll woken or spurious / fire current or stale wakers / drop; new, with_capacity, from_iter; plain and keyed) on the real FutureGroup compared, after every operation, with a reference model of the live members: len, is_empty, contains_key for every key ever returned, capacity >= len, distinct live keys, remove's return value and drop-at-removal, each poll's result related to what the members answered during that poll (value, key, exactly once, None iff empty), refill after None; plus L/P/Q/D on the same histories; std and alloc-only",
+            "model-based (stateful) property testing: generated operation histories vs. reference set model and per-poll trace relation"),
+    "C12": ("group", "§5 C12", "as C11 for StreamGroup with multi-item member scripts: every item of every member exactly once and in member order (each member answer Some(x) must be the result of that very poll), keyed items tagged with the insert key, a member that answers None is dropped and gone from the set view when the poll returns, None iff no member remains, several members ending in one poll, refill after None; std and alloc-only",
+            "model-based (stateful) property testing: generated operation histories vs. reference set model and per-poll trace relation"),
 }
 
 NA = {
